@@ -50,7 +50,7 @@ template <class T> struct tname;
   {                                             \
     static constexpr char const *v = #T;        \
   };
-TN(u8) TN(i8) TN(u16) TN(i16) TN(u32) TN(i32) TN(u64) TN(i64)
+TN(u8) TN(i8) TN(u16) TN(i16) TN(u32) TN(i32) TN(u64) TN(i64) TN(char8_t) TN(char16_t) TN(char32_t)
 
 // the boundary lattice of T: 0, +-1, +-(2^k-1), +-2^k, +-(2^k+1), min, max, min+1, max-1
 template <class T> std::vector<T> lattice()
@@ -214,6 +214,48 @@ template <class E> void from_int_enum(char const *ename, i128 size)
   from_int_pair<E, u16>(ename, size);
   from_int_pair<E, u32>(ename, size);
   from_int_pair<E, u64>(ename, size);
+}
+
+// ------------------------------------------------------------ div with operands of two different types
+// div<L,R> is dividend / divisor in the common type C of L and R.  Checked wherever that is the mathematical
+// quotient: both operand values are representable in C (no sign-changing conversion) and so is the quotient;
+// a zero divisor gives nothing, every other divisor gives a value.
+template <class L, class R> void div_mixed()
+{
+  using C = decltype(std::declval<L>() / std::declval<R>());
+  static std::string const n = std::string("div<") + tname<L>::v + "," + tname<R>::v + ">";
+  auto const la = pair_domain<L>();
+  auto const ra = pair_domain<R>();
+  for (L a : la)
+    for (R b : ra)
+    {
+      i128 const A = static_cast<i128>(a), B = static_cast<i128>(b);
+      if (!fits<C>(A) || !fits<C>(B))
+        continue;
+      if (B != 0 && !fits<C>(A / B))
+        continue; // min / -1
+      if (!vrt::begin(n.c_str(), a, b))
+        continue;
+      vrt::nontrivial(B != 0 && (A == lo<C>() || B == hi<R>() || B == -1));
+      vrt::maybe_sample();
+      auto const r = fcppt::math::div(a, b);
+      if (B == 0)
+        VRT_CHECK(!r.has_value(), n + ":zero", "div by zero returned a value");
+      else
+        VRT_CHECK(r.has_value() && static_cast<i128>(r.get_unsafe()) == A / B, n + ":wrong", "got %lld (has_value %d) want %lld",
+                  (long long)(r.has_value() ? as64(static_cast<i128>(r.get_unsafe())) : 0), int(r.has_value()), (long long)as64(A / B));
+    }
+}
+template <class L> void div_mixed_left()
+{
+  div_mixed<L, u8>();
+  div_mixed<L, i8>();
+  div_mixed<L, u16>();
+  div_mixed<L, i16>();
+  div_mixed<L, u32>();
+  div_mixed<L, i32>();
+  div_mixed<L, u64>();
+  div_mixed<L, i64>();
 }
 
 // ------------------------------------------------------------ floating-point mod
@@ -656,6 +698,21 @@ int main(int argc, char **argv)
     binary_unsigned<u64>();
     binary_signed<i32>();
     binary_signed<i64>();
+  });
+  vrt::shard("div_mixed_types", [] {
+    div_mixed_left<u8>();
+    div_mixed_left<i8>();
+    div_mixed_left<u16>();
+    div_mixed_left<i16>();
+    div_mixed_left<u32>();
+    div_mixed_left<i32>();
+    div_mixed_left<u64>();
+    div_mixed_left<i64>();
+  });
+  vrt::shard("unary_char_types", [] {
+    unary_unsigned<char8_t>();
+    unary_unsigned<char16_t>();
+    unary_unsigned<char32_t>();
   });
   vrt::shard("clamp_u8", [] { clamp_all<u8>(); });
   vrt::shard("clamp_i8", [] { clamp_all<i8>(); });
